@@ -21,8 +21,9 @@ def Mut.lt (a b : Mut) : Bool := a.pos < b.pos || (a.pos == b.pos && a.op < b.op
 /-- `str(Mutation)` = `f"{pos + 1}.{op}"`. -/
 def Mut.str (m : Mut) : String := s!"{m.pos + 1}.{m.op}"
 
-def Mut.isIns (m : Mut) : Bool := (m.op.take 3).toString == "ins"
-def opIsIns (op : String) : Bool := (op.take 3).toString == "ins"
+/-- `op[:3] == "ins"` -/
+def opIsIns (op : String) : Bool := op.toList.take 3 == ['i', 'n', 's']
+def Mut.isIns (m : Mut) : Bool := opIsIns m.op
 
 inductive CNKind | default | leftFusion | rightFusion | deletion | custom
 deriving DecidableEq, Repr
